@@ -409,7 +409,7 @@ func c06AtomicInvalids(c *Ctx) {
 // c06CollectPrivate: collectFields is called concurrently by the goroutines of a list's elements with the same parsed
 // selection set; what it builds must not share mutable storage with the document.
 func c06CollectPrivate(c *Ctx) {
-	c.R.Rule("collect-private", "in package graphql, CollectedField.Selections is only ever assigned append(<itself or nil>, ...): the merged selection slice never aliases the parsed document's slice, whose spare capacity concurrent element goroutines would otherwise overwrite", 3)
+	c.R.Rule("collect-private", "in package graphql, CollectedField.Selections is only ever assigned append(<itself or nil>, ...): the merged selection slice never aliases the parsed document's slice, whose spare capacity concurrent element goroutines would otherwise overwrite", 1)
 	for _, fn := range c.moduleFuncs(func(p string) bool { return p == pkgGraphql }) {
 		for _, b := range fn.Blocks {
 			for _, in := range b.Instrs {
